@@ -97,6 +97,24 @@ func worstVsize(ins []inType, nReq, reqBytes, changeScriptLen, schnorrLen int) i
 	return vsizeOfWeight(txWeight(ss, wit, n, b))
 }
 
+// slackVsize is the allowance (in vbytes) for conventions of a worst-case
+// estimator that are still "worst case": 1 WU per witness input for counting
+// the witness items differently, 1 WU per taproot input for a 65-byte signature
+// (explicit sighash byte), plus 3 WU of rounding; computed in weight units and
+// rounded up.
+func slackVsize(ins []inType) int {
+	wu := 3
+	for _, t := range ins {
+		if t != inP2PKH {
+			wu++
+		}
+		if t == inP2TR {
+			wu++
+		}
+	}
+	return (wu + 3) / 4
+}
+
 // marginalVsize is a lower bound of what one more input of type t adds to the
 // virtual size (used only to give the non-boundary coins sensible amounts).
 func marginalVsize(t inType) int {
